@@ -656,9 +656,9 @@ type wdDelivery struct {
 	from    int // index of the first downstream call made while handling it
 	to      int
 	// downstream state right before the handler was entered
-	collInc map[string]int // source "db/coll" -> downstream incarnation at the mapped name (0 = absent)
-	dbInc   int
-	partInc map[string]int
+	collInc         map[string]int // source "db/coll" -> downstream incarnation at the mapped name (0 = absent)
+	dbInc           int
+	partInc         map[string]int
 	dropKnownBefore bool
 	dbDroppedAfter  bool // a drop of the operation's database stamped at or after the operation had been handled before
 	dbPresent       bool
@@ -666,15 +666,15 @@ type wdDelivery struct {
 }
 
 type RigWD struct {
-	s      *Sim
-	sc     *WDScript
-	down   *wdDown
-	w      api.Writer
-	mu     sync.Mutex
-	deliv  []*wdDelivery
+	s       *Sim
+	sc      *WDScript
+	down    *wdDown
+	w       api.Writer
+	mu      sync.Mutex
+	deliv   []*wdDelivery
 	handled map[int]bool // event seq -> handled successfully (or pre-applied)
-	next   map[string]int
-	queues map[string][]*WDEvent
+	next    map[string]int
+	queues  map[string][]*WDEvent
 }
 
 func RunRigWD(t *testing.T, plan *Plan) {
